@@ -56,8 +56,15 @@ C12_W64 = {0, 1, 8, 24, 28, 29, 32, 33, 56, 57, 63, 64}
 def keep_c12(c, quick):
     """C12 thins the lattice to the boundary points (sanitised runs are several times slower)"""
     m = c.get("meta", {})
-    if c["fn"] in ("page_v1_dict", "page_v2_dict", "make_definitions"):
+    if c["fn"] in ("page_v1_dict", "page_v2_dict"):
+        # the callers' allocation arithmetic under the sanitised build: the page readers on the boundary widths
+        return c["w"] in C12_W32 and (not quick or c["n"] == 9)
+    if c["fn"] == "page_delta":
+        return True
+    if c["fn"] in ("make_definitions", "read_plain_t", "ba_roundtrip"):
         return False
+    if c["fn"] == "delta_unpack" and m.get("pattern") == "stale":
+        return True
     if m.get("pattern") in ("zeros", "alternating") and c["fn"] != "read_bitpacked1":
         return False
     if c["fn"] == "delta_unpack":
@@ -217,6 +224,8 @@ def generate(rng, quick, c12=False):
             raise RuntimeError("spec encoder failed on %r: %r" % (c["enc"], o))
         if c["fn"] == "read_hybrid" and c.get("cut"):
             o = bytes(o)[:len(o) - c.pop("cut")]
+        if c["fn"] == "delta_unpack" and c["meta"].get("stale"):
+            o = _delta_stale_widths(bytes(o), c["meta"]["stale"])
         c["inp"] = (bytes(o) + (TRAIL if c.get("trail") else b"")).hex()
         c["enc_len"] = len(o)
         del c["enc"]
@@ -226,6 +235,8 @@ def generate(rng, quick, c12=False):
             _pg_finish(c)
         if c["fn"] == "page_v2_dict":
             _pg2_finish(c)
+        if c["fn"] == "page_delta":
+            c["inp"] = bytes(o).hex()
         if c["fn"] == "delta_unpack":
             # classify by the widths the spec encoder really chose (wrapping deltas can need more bits than intended)
             mw = _delta_max_width(bytes(o))
@@ -269,6 +280,33 @@ def _delta_max_width(b):
             pos += vpm * w // 8
             rem -= vpm
     return mw
+
+
+def _delta_stale_widths(b, stale):
+    """what other writers (parquet-mr re-uses the width array of the previous block) leave in a DELTA_BINARY_PACKED
+    page: the width bytes of the miniblocks that carry no value are NOT zero.  Encodings.md: 'readers must accept
+    arbitrary values' there - such a miniblock has no body.  Rewrites the width bytes of the unneeded miniblocks of
+    the spec encoder's output (which writes 0) with the given stale widths."""
+    b = bytearray(b)
+    bs, pos = _rd_uleb(b, 0)
+    mpb, pos = _rd_uleb(b, pos)
+    total, pos = _rd_uleb(b, pos)
+    _, pos = _rd_uleb(b, pos)
+    vpm = bs // mpb
+    rem = total - 1
+    k = 0
+    while rem > 0:
+        _, pos = _rd_uleb(b, pos)
+        wpos = pos
+        pos += mpb
+        for i in range(mpb):
+            if rem <= 0:
+                b[wpos + i] = stale[k % len(stale)]
+                k += 1
+            else:
+                pos += vpm * b[wpos + i] // 8
+                rem -= vpm
+    return bytes(b)
 
 
 def _uleb_py(n):
@@ -475,6 +513,8 @@ FNS = {
 
 def worker_case(c):
     d = {k: v for k, v in c.items() if k not in ("meta", "stream", "enc_len", "trail", "cut")}
+    if c["fn"] == "page_delta":
+        d.pop("vals", None)
     if c["fn"] in ("page_v1_dict", "page_v2_dict"):
         d.pop("inp", None)
     if c.get("cut"):
@@ -485,6 +525,9 @@ def worker_case(c):
 def short(c):
     d = {k: v for k, v in c.items() if k != "meta"}
     d["meta"] = {k: v for k, v in c.get("meta", {}).items() if k not in ("runs",)}
+    if c.get("n", 0) > 5000 and "want" in d["meta"]:
+        # (the 64 KiB framing case: keep the replay small - everything is determined by the page bytes)
+        d["meta"] = dict(d["meta"], want="alternating 0/1 (i % 2)", levels="all 1")
     return d
 
 
@@ -565,13 +608,61 @@ def second_phase(cases, real, souts):
             souts[i] = (souts[i], None)
     for i, o in zip(idx, outs):
         souts[i] = (souts[i][0], o)
+    # a third spec command on the real output (`spec3`): result appended
+    idx3, cmds3 = [], []
+    for i, (c, r) in enumerate(zip(cases, real)):
+        f3 = FNS[c["fn"]].get("spec3")
+        if f3 is not None:
+            cmd = f3(c, r)
+            if cmd is not None:
+                idx3.append(i)
+                cmds3.append(cmd)
+    for i, o in zip(idx3, L.pq_batch(cmds3, nproc=4)):
+        souts[i] = souts[i] + (o,)
     return souts
+
+
+WRITER_OBS = []          # (case, real result) of make_definitions / encode_dict, for the writer2coq correspondence
+DISPATCH_TAB = None      # decision tables of the regenerated dispatch (harness/codec_dispatch.py), set by the check
+
+
+def dispatch_correspondence(ctx, c, r):
+    """the regenerated Gallina decision functions against what the real readers were observed to do"""
+    from harness import codec_dispatch as D
+    tab = DISPATCH_TAB
+    if tab is None or r[0] != "ok":
+        return
+    if c["fn"] in ("page_v1_dict", "page_v2_dict") and not c["optional"] and _nwant(c):
+        obs = D.observed_index(c, r)
+        mod = D.model_index(tab, c)
+        if obs is not None and mod is not None:
+            ctx.correspondence("regenerated index-decoder dispatch (GenDispatch.v) = decoder call observed in the real page reader "
+                               "(generic decoder called or not, allocation item size, itemsize argument)", short(c), list(mod), list(obs))
+    if c["fn"] == "read_plain_t":
+        import numpy as np
+        t = D.TYPE_IDS[c["type"]]
+        key = (t, 5, 3, c["utf"], c["stat"]) if not c["stat"] else (t, 1, 0, c["utf"], True)
+        leaf = tab["plain"].get(key)
+        if leaf is None or (c["type"] == "FIXED_LEN_BYTE_ARRAY"):
+            return
+        try:
+            dt = np.dtype(r[2])
+            obs = ["bool"] if dt.kind == "b" else ["object"] if dt.kind == "O" else ["fixed", dt.itemsize]
+        except TypeError:
+            obs = ["?", r[2]]
+        mod = {1: ["fixed", leaf[1]], 2: ["bool"], 3: ["object"], 4: ["object"]}.get(leaf[0], ["none"])
+        ctx.correspondence("regenerated read_plain dispatch (GenDispatch.v) = kind and item size of what encoding.read_plain returned",
+                           short(c), mod, obs)
 
 
 def judge(ctx, pid, c, r, mo, so, guard, sanitize, verbose=False, memory_only=False, hwo=None):
     """returns True when the property fails on this case"""
     f = FNS[c["fn"]]
     fn = c["fn"]
+    if hasattr(ctx, "gen_dir"):
+        dispatch_correspondence(ctx, c, r)
+        if fn in ("make_definitions", "encode_dict") and r[0] == "ok" and len(c["vals"]) <= 70:
+            WRITER_OBS.append((c, r))
     if r[0] == "skipped":
         ctx.count("not run (the worker had already crashed too often)", fn)
         return False
@@ -760,6 +851,25 @@ def gen_delta(rng, quick):
                                   "stream": "main" if (cc in ("exact", "odd") and count > 0 and (count - 1) % bs) else "confirm",
                                   "meta": {"count": count, "bs": bs, "mpb": mpb, "max_width": mw, "pattern": "mixed",
                                            "cap_class": cc, "vals": vals}})
+            # well-formed pages as OTHER writers produce them: stale (non-zero) width bytes for the unneeded trailing
+            # miniblocks of the last block; counts 1 modulo the miniblock size (the decoder arrives at such a miniblock
+            # with exactly one value left), around it, and counts that end inside a miniblock
+            stale_sets = [[5, 9, 3], [28, 1, 17], [32, 64, 8]] if quick else [[5, 9, 3], [28, 1, 17], [32, 64, 8], [1], [255, 57, 29], [13]]
+            scounts = [vpm + 1, 2 * vpm + 1, vpm + 2, 5, bs + vpm + 1] + ([] if quick else [3 * vpm + 1, vpm, 2 * vpm, bs + 2, 2 * bs + 2 * vpm + 1, bs + 3])
+            for count in scounts:
+                if (count - 1) % bs == 0:
+                    continue
+                for si, stale in enumerate(stale_sets):
+                    wsel = [rng.choice([0, 1, 3, 8, 13, 24, 28]) for _ in range(40)]
+                    vals, widths = _delta_values(rng, bits, count, vpm, lambda m: wsel[m % 40], "random", mpb)
+                    mw = max(widths) if widths else 0
+                    for cc, cap in (("exact", count * isz), ("odd", count * isz + isz - 1)):
+                        if cc == "odd" and si:
+                            continue
+                        cases.append({"fn": "delta_unpack", "longval": longval, "cap": cap,
+                                      "enc": ["delta_enc", bits, bs, mpb, vals], "trail": True, "stream": "main",
+                                      "meta": {"count": count, "bs": bs, "mpb": mpb, "max_width": mw, "pattern": "stale",
+                                               "cap_class": cc, "vals": vals, "stale": stale}})
     return cases
 
 
@@ -1057,6 +1167,9 @@ def _md_oracle(c, r, so, guard):
         return [("values", "definition levels decode to %r..., the data has %r..." % (list(vals)[:12], want[:12]))]
     if n and len(rest):
         return [("cursor", "%d bytes behind the runs / length prefix does not cover the block" % len(rest))]
+    if n and len(so) > 2 and so[2]:
+        # the block must encode the n levels and nothing else (bit-packed padding: at most 8 more, + the writer's extra zero byte)
+        return [("count", "the block encodes at least %d levels for %d rows (run header counts too many values)" % (n + 17, n))]
     if c["version"] == 1 and int.from_bytes(block[:4], "little") != len(block) - 4:
         return [("count", "length prefix %d, block body %d bytes" % (int.from_bytes(block[:4], "little"), len(block) - 4))]
     if r[2] != (n if c["no_nulls"] else None) and c["no_nulls"]:
@@ -1107,7 +1220,9 @@ FNS.update({
                              spec=lambda c: ("uleb_enc", 0), oracle=_md_oracle, safe=lambda c: True, cls=lambda c: {"version": c["version"]},
                              trivial=lambda c: not c["vals"],
                              spec2=lambda c, r: (("hyb_dec_len" if c["version"] == 1 else "hyb_dec"), 1 if c["version"] == 1 else 0, 1,
-                                                 len(c["vals"]), bytes.fromhex(r[1])) if r[0] == "ok" else None),
+                                                 len(c["vals"]), bytes.fromhex(r[1])) if r[0] == "ok" else None,
+                             spec3=lambda c, r: (("hyb_dec_len" if c["version"] == 1 else "hyb_dec"), 0, 1,
+                                                 len(c["vals"]) + 17, bytes.fromhex(r[1])) if r[0] == "ok" else None),
     "encode_dict": dict(model=lambda c: ("py_encode_dict", c["meta"]["isz"], c["vals"]), tagged=False,
                         views=_info_views("py_encode_dict"), spec=lambda c: ("uleb_enc", 0), oracle=_ed_oracle,
                         spec2=lambda c, r: ("hyb_dec", 0, 8 * c["meta"]["isz"], len(c["vals"]), bytes.fromhex(r[1])[1:]) if r[0] == "ok" and r[1] else None,
@@ -1213,9 +1328,21 @@ def gen_callers(rng, quick):
     return cases
 
 
+def _wform(c):
+    """`wform` pages: the index block as fastparquet's own writer lays it out (writer.encode_dict): ONE bit-packed run
+    whose header counts whole groups of 8 but whose body holds only the real values (not padded to a group); built
+    from the spec bit packing `bp_enc` + the run header.  The lenient spec hybrid decoder accepts it."""
+    body = bytes.fromhex(c["inp"])
+    if c.get("wform"):
+        n = len(c["meta"]["want"])
+        body = (_uleb_py(((n + 7) // 8) << 1 | 1) if n else b"") + body
+        c["inp"] = body.hex()
+    return body
+
+
 def _pg_finish(c):
     """phase 2 hook: assemble the page = [definition levels] + width byte + index runs"""
-    body = bytes.fromhex(c["inp"])
+    body = _wform(c)
     head = b""
     if c["optional"]:
         lv = c["meta"]["levels"]
@@ -1224,12 +1351,12 @@ def _pg_finish(c):
             bits[i // 8] |= b << (i % 8)
         blk = _uleb_py(((len(lv) + 7) // 8) << 1 | 1) + bytes(bits)
         head = len(blk).to_bytes(4, "little") + blk
-    c["page"] = (head + bytes([c["w"]]) + body).hex()
+    c["page"] = (head + (b"" if c.get("rle_bool") else bytes([c["w"]])) + body).hex()
 
 
 def _pg2_finish(c):
     """v2 page = definition levels (bare hybrid runs, no length prefix) + width byte + index runs"""
-    body = bytes.fromhex(c["inp"])
+    body = _wform(c)
     head = b""
     if c["optional"]:
         lv = c["meta"]["levels"]
@@ -1238,17 +1365,18 @@ def _pg2_finish(c):
             bits[i // 8] |= b << (i % 8)
         head = _uleb_py(((len(lv) + 7) // 8) << 1 | 1) + bytes(bits)
     c["dlen"] = len(head)
-    c["page"] = (head + bytes([c["w"]]) + body).hex()
+    c["page"] = (head + (b"" if c.get("rle_bool") else bytes([c["w"]])) + body).hex()
 
 
 def _pg2_oracle(c, r, so, guard):
     if r[0] != "ok":
         return [(r[0], "core.read_data_page_v2: %r" % (r[:3],))]
-    want = c["meta"]["want"]
-    if not so or list(so[0][0]) != want:
+    want, agrees = _pg_want(c, so)
+    if not agrees:
         return [("spec", "harness: the page's index runs do not spec-decode to the intended indices")]
     it = iter(want)
-    full = [next(it) if lv else None for lv in c["meta"]["levels"]]
+    levels = c["meta"]["levels"] if not isinstance(c["meta"]["levels"], str) else [1] * c["n"]
+    full = [next(it) if lv else (-1 if c.get("use_cat") else None) for lv in levels]
     if r[1] != full:
         bad = [(i, a, b) for i, (a, b) in enumerate(zip(r[1], full)) if a != b][:4]
         return [("values", "core.read_data_page_v2 filled the output (dtype %s) differently from the spec decoding of the page at %r "
@@ -1259,30 +1387,160 @@ def _pg2_oracle(c, r, so, guard):
 def _pg_oracle(c, r, so, guard):
     if r[0] != "ok":
         return [(r[0], "core.read_data_page: %r" % (r[:3],))]
-    want = c["meta"]["want"]
+    want, agrees = _pg_want(c, so)
     probs = []
-    dec = so
-    if not dec or list(dec[0][0]) != want:
+    if not agrees:
         return [("spec", "harness: the page's index runs do not spec-decode to the intended indices")]
     if r[1] != want:
         bad = [(i, a, b) for i, (a, b) in enumerate(zip(r[1], want)) if a != b][:4]
         probs.append(("values", "core.read_data_page returned indices (dtype %s) that differ from the spec decoding of the page at %r "
                       "(position, got, want)%s" % (r[3], bad, "" if len(r[1]) == len(want) else "; %d values for %d" % (len(r[1]), len(want)))))
     lv = c["meta"]["levels"]
-    if c["optional"] and 0 in lv and r[2] != lv:
+    if c["optional"] and not isinstance(lv, str) and 0 in lv and r[2] != lv:
         probs.append(("values", "definition levels %r..., the page holds %r..." % ((r[2] or [])[:12], lv[:12])))
     return probs
 
 
+def _pg_cls(c):
+    return {"width": c["w"], "optional": c["optional"], "selfmade": bool(c.get("selfmade")), "use_cat": bool(c.get("use_cat")),
+            "shape": c["meta"]["shape"]}
+
+
+def _nwant(c):
+    w = c["meta"]["want"]
+    return c.get("nval", c["n"]) if isinstance(w, str) else len(w)
+
+
+def _pg_spec(c):
+    if isinstance(c["meta"]["want"], str):
+        return ("uleb_enc", 0)          # (the 64 KiB framing case: the expectation is known by construction, see _pg_want)
+    return ("hyb_dec_len" if c.get("rle_bool") else "hyb_dec", 0, c["w"], _nwant(c), _inp(c))
+
+
+def _pg_want(c, so):
+    """(intended values, spec decoding agrees with them)"""
+    want = c["meta"]["want"]
+    if isinstance(want, str):
+        return [i % 2 for i in range(c["n"])], True
+    return want, bool(so) and list(so[0][0]) == want
+
+
 FNS["page_v1_dict"] = dict(model=lambda c: ("uleb_enc", 0), tagged=False, views=_info_views("none"),
-                           spec=lambda c: ("hyb_dec", 0, c["w"], len(c["meta"]["want"]), _inp(c)),
-                           oracle=_pg_oracle, safe=lambda c: True,
-                           cls=lambda c: {"width": c["w"], "optional": c["optional"]}, trivial=lambda c: False)
+                           spec=_pg_spec,
+                           oracle=_pg_oracle, safe=lambda c: True, cls=_pg_cls, trivial=lambda c: False)
 FNS["page_v2_dict"] = dict(model=lambda c: ("uleb_enc", 0), tagged=False, views=_info_views("none"),
-                           spec=lambda c: ("hyb_dec", 0, c["w"], len(c["meta"]["want"]), _inp(c)),
-                           oracle=_pg2_oracle, safe=lambda c: True,
-                           cls=lambda c: {"width": c["w"], "optional": c["optional"]}, trivial=lambda c: False)
+                           spec=_pg_spec,
+                           oracle=_pg2_oracle, safe=lambda c: True, cls=_pg_cls, trivial=lambda c: False)
 EXTRA_GENERATORS.append(gen_callers)
+
+
+def _smallest_int(m):
+    return "int8" if m < (1 << 7) else "int16" if m < (1 << 15) else "int32"
+
+
+def gen_callers_dispatch(rng, quick):
+    """The callers' DISPATCH: core.read_data_page / read_data_page_v2 pick a decoder per (page version, bit width, selfmade flag,
+    categorical output or dictionary de-reference).  Whole lattice: widths 0..32 x v1/v2 x selfmade/foreign x with/without
+    nulls x (v2) use_cat; index streams come from the spec encoders, the expectation from the spec decoder.
+    A self-made page of width 8/16/32 is laid out the way writer.encode_dict does (one bit-packed run of whole bytes,
+    `wform`); every other combination carries spec-form runs (RLE / bit-packed / mixed).  Foreign x v1 and foreign x v2 x
+    de-reference are the older `gen_callers` stream; bit-packed runs of width >= 25 through the generic native decoder are
+    the known .pyx defect (confirmed in the read_bitpacked / read_hybrid streams) and are not repeated here."""
+    cases = []
+    for w in range(0, 33):
+        for selfmade in (False, True):
+            own = selfmade and w in (8, 16, 32)
+            if own:
+                shapes = [("wbp",)]
+            elif w == 0:
+                shapes = [("rle",), ("bp",)]          # (width 0: the readers must not enter the native decoder at all)
+            elif w > 24:
+                shapes = [("rle",)]
+            else:
+                shapes = [("rle",), ("bp",), ("rle", "bp", "rle")]
+            for shape in shapes:
+                for optional in (False, True):
+                    for n in ((9, 40) if quick else (1, 8, 9, 17, 40, 200)):
+                        # largest index: a dictionary has at most 2^31 - 1 entries; fastparquet's own codes are signed
+                        m = (1 << (w - 1)) - 1 if own else min((1 << w) - 1, (1 << 31) - 1)
+                        levels = [1] * n if not optional else [0 if (i % 4 == 1) else 1 for i in range(n)]
+                        nval = sum(levels)
+                        ext = [m, 0, (1 << max(min(w - 2, 29), 0)) if w else 0]
+                        rnd = lambda k: [rng.randrange(m + 1) for _ in range(k)]
+                        if shape == ("rle",):
+                            runs = [["rle", 1, ext[0]], ["rle", 1, ext[1]], ["rle", max(nval - 2, 0), ext[2]]]
+                        elif shape in (("bp",), ("wbp",)):
+                            runs = [["bp", (ext + rnd(nval))[:nval]]]
+                        else:
+                            runs = [["rle", 2, ext[0]], ["bp", (ext[1:] + rnd(8))[:8]], ["rle", 1, ext[2]], ["bp", rnd(max(nval - 11, 0))]]
+                        want, left, kept = [], nval, []
+                        for rr in runs:
+                            vals = [rr[2]] * rr[1] if rr[0] == "rle" else list(rr[1])
+                            vals = vals[:left]
+                            if not vals:
+                                continue
+                            kept.append(["rle", len(vals), rr[2]] if rr[0] == "rle" else ["bp", vals])
+                            want += vals
+                            left -= len(vals)
+                        runs = kept
+                        if len(want) != nval or any(r_[0] == "bp" and len(r_[1]) % 8 for r_ in runs[:-1]):
+                            continue
+                        enc = ["bp_enc", w, want] if own else ["hyb_enc", w, runs]
+                        base = {"w": w, "n": n, "optional": optional, "stream": "main", "enc": enc, "trail": False,
+                                "selfmade": selfmade, "wform": own}
+                        meta = {"want": want, "levels": levels, "shape": "+".join(shape)}
+                        if selfmade or w == 0:
+                            cases.append(dict(base, fn="page_v1_dict", meta=dict(meta)))
+                            cases.append(dict(base, fn="page_v2_dict", nval=nval, use_cat=False, meta=dict(meta)))
+                        # categorical output: the codes array is as wide as the number of categories needs
+                        adts = [_smallest_int(max(want + [0]))]
+                        if own and w < 32:
+                            adts.append("int32")           # more categories declared than the page's own code width
+                        for adt in adts:
+                            cases.append(dict(base, fn="page_v2_dict", nval=nval, use_cat=True, adt=adt, meta=dict(meta)))
+    # BOOLEAN values in RLE encoding (Encoding.RLE): no width byte - the width is 1 by definition - but a 4-byte length in
+    # front of the runs, which both readers step over before they enter the same chains
+    for selfmade in (False, True):
+        for shape in (("rle",), ("bp",), ("rle", "bp", "rle")):
+            for optional in (False, True):
+                for n in ((9, 40) if quick else (1, 8, 9, 17, 40, 200)):
+                    levels = [1] * n if not optional else [0 if (i % 4 == 1) else 1 for i in range(n)]
+                    nval = sum(levels)
+                    bits = [rng.randrange(2) for _ in range(nval)]
+                    if shape == ("rle",):
+                        runs = [["rle", nval - nval // 2, 1], ["rle", nval // 2, 0]]
+                    elif shape == ("bp",):
+                        runs = [["bp", bits]]
+                    else:
+                        runs = [["rle", 2, 1], ["bp", bits[:8]], ["rle", 1, 0], ["bp", bits[8:max(nval - 3, 8)]]]
+                    want, left, kept = [], nval, []
+                    for rr in runs:
+                        vals = [rr[2]] * rr[1] if rr[0] == "rle" else list(rr[1])
+                        vals = vals[:left]
+                        if not vals:
+                            continue
+                        kept.append(["rle", len(vals), rr[2]] if rr[0] == "rle" else ["bp", vals])
+                        want += vals
+                        left -= len(vals)
+                    if len(want) != nval or any(r_[0] == "bp" and len(r_[1]) % 8 for r_ in kept[:-1]):
+                        continue
+                    base = {"w": 1, "n": n, "optional": optional, "stream": "main", "enc": ["hyb_enc_len", 1, kept], "trail": False,
+                            "selfmade": selfmade, "rle_bool": True}
+                    meta = {"want": want, "levels": levels, "shape": "rle-bool:" + "+".join(shape)}
+                    cases.append(dict(base, fn="page_v1_dict", meta=dict(meta)))
+                    cases.append(dict(base, fn="page_v2_dict", nval=nval, use_cat=False, meta=dict(meta)))
+    # framing boundary of the 4-byte length: a body of more than 65535 bytes (32800 one-value RLE runs), so that every byte
+    # of the prefix matters
+    big = [["rle", 1, i % 2] for i in range(32800)]
+    base = {"w": 1, "n": 32800, "optional": False, "stream": "main", "enc": ["hyb_enc_len", 1, big], "trail": False,
+            "selfmade": False, "rle_bool": True}
+    meta = {"want": "alternating 0/1 (i % 2)", "levels": "all 1", "shape": "rle-bool:64k"}
+    cases.append(dict(base, fn="page_v1_dict", meta=dict(meta)))
+    cases.append(dict(base, fn="page_v2_dict", nval=32800, use_cat=False, meta=dict(meta)))
+    return cases
+
+
+EXTRA_GENERATORS.append(gen_callers_dispatch)
 
 
 def coq_obligations(ctx, pid):
@@ -1298,3 +1556,209 @@ def coq_obligations(ctx, pid):
         ctx.obligation("coqchk -o props/%s.vo: the standalone checker accepts the theorem file and its dependencies, Axioms: <none>" % pid,
                        good, out[-2000:])
         ctx.checker_cmds.append("coqchk -silent -o -Q coq/theories Pq coq/props/%s.vo  (%.1fs)" % (pid, time.time() - t))
+
+
+# =============================================================================================
+# the Python-level codecs of fastparquet/encoding.py: read_plain for every physical type, byte-array round trips
+# =============================================================================================
+
+PLAIN_FIXED = {"INT32": 4, "INT64": 8, "INT96": 12, "FLOAT": 4, "DOUBLE": 8}
+
+
+def ba_item_sets(rng, quick):
+    """value lattices for BYTE_ARRAY / FIXED_LEN_BYTE_ARRAY: uniform and mixed lengths, empty values, leading / trailing /
+    only NUL bytes, 0xFF, non-UTF8 bytes, values that look like a length field"""
+    sets = []
+    for L in ((1, 2, 3, 4, 8, 16) if quick else (1, 2, 3, 4, 5, 7, 8, 12, 16, 33)):
+        pats = {
+            "nul": lambda i: bytes(L),
+            "trail-nul": lambda i: bytes([0x61 + i % 26]) * (L - 1) + b"\x00",
+            "lead-nul": lambda i: b"\x00" + bytes([0x61 + i % 26]) * (L - 1),
+            "ff": lambda i: b"\xff" * L,
+            "counter": lambda i: i.to_bytes(L, "little") if i < 256 ** L else bytes(L),
+            "random": lambda i: bytes(rng.randrange(256) for _ in range(L)),
+            "nonutf8": lambda i: (b"\xc3\x28\xa0\xa1\xfe\x80" * L)[i % 3:i % 3 + L],
+            "some-trail-nul": lambda i: (bytes([0x41 + i % 26]) * L) if i % 2 else (bytes([0x41 + i % 26]) * (L - 1) + b"\x00"),
+        }
+        for pname, f in pats.items():
+            for k in ((1, 2, 5) if quick else (1, 2, 3, 5, 9, 17)):
+                if quick and pname in ("ff", "lead-nul", "nonutf8") and k != 2:
+                    continue
+                sets.append(("uniform-%d/%s" % (L, pname), [f(i) for i in range(k)]))
+    sets.append(("empty-list", []))
+    for k in (1, 2, 5):
+        sets.append(("all-empty", [b""] * k))
+    mixed = [b"", b"\x00", b"a\x00", b"\x00a", b"\x00\x00\x00", b"abc", b"\xff\xfe", b"\x04\x00\x00\x00", b"x" * 255, b"y" * 256, b"\x00" * 17]
+    sets.append(("mixed", list(mixed)))
+    sets.append(("mixed-rev", list(reversed(mixed))))
+    for rep in range(2 if quick else 8):
+        sets.append(("mixed-random", [bytes(rng.randrange(256) for _ in range(rng.choice([0, 0, 1, 2, 3, 4, 4, 9, 300])))
+                                      for _ in range(rng.choice([1, 2, 3, 7, 8, 9]))]))
+    # same length for all but one
+    sets.append(("uniform-but-last", [b"ab\x00", b"cd\x00", b"e\x00"]))
+    sets.append(("uniform-but-first", [b"\x00", b"cd\x00", b"ef\x00"]))
+    return sets
+
+
+def utf_item_sets(rng, quick):
+    strs = [["a", "b"], ["", ""], ["a\x00", "b\x00"], ["\x00"], ["\x00a", "\x00b"], ["h\u00e9", "\u00fc\u00df"], ["\u20ac", "\u20ac"],
+            ["\U0001F600", "ab"], ["abc", "", "de\x00", "\u00e9"], ["same", "same", "same"], ["a" * 300, "b"]]
+    return [("utf8", [x.encode("utf-8") for x in ss]) for ss in strs]
+
+
+def gen_read_plain(rng, quick):
+    cases = []
+    bufs = ("bytes", "ndarray", "memoryview")
+    nb = [0]
+
+    def buf():
+        nb[0] += 1
+        return bufs[nb[0] % 3]
+    # fixed-width physical types (np.frombuffer with a dtype from DECODE_TYPEMAP) and FIXED_LEN_BYTE_ARRAY
+    kinds = [(t, k, 0) for t, k in PLAIN_FIXED.items()] + [("FIXED_LEN_BYTE_ARRAY", k, k) for k in (1, 2, 3, 12, 16)]
+    for t, k, width in kinds:
+        top = (1 << (8 * k)) - 1
+        for n in ((0, 1, 2, 9) if quick else (0, 1, 2, 3, 7, 8, 9, 33)):
+            pats = {"zeros": [0] * n, "ones": [top] * n,
+                    "low-byte-only": [(i % 255) + 1 for i in range(n)],                       # every high byte is NUL (trailing NULs)
+                    "high-byte-only": [((i % 255) + 1) << (8 * (k - 1)) for i in range(n)],    # leading NULs
+                    "random": [rng.randrange(top + 1) for _ in range(n)]}
+            for pname, vs in pats.items():
+                if n == 0 and pname != "zeros":
+                    continue
+                for extra in ((0, 3) if pname == "random" else (0,)):
+                    cases.append({"fn": "read_plain_t", "type": t, "count": n, "width": width, "utf": False, "stat": False,
+                                  "buf": buf(), "extra": extra, "enc": ["fixed_enc", k, vs], "trail": False, "stream": "main",
+                                  "meta": {"k": k, "vals": [str(v) for v in vs], "pattern": pname}})
+        # a statistics value (count 1, stat=True; FLBA comes without its width)
+        for v in (0, 1, top, 1 << (8 * (k - 1))):
+            cases.append({"fn": "read_plain_t", "type": t, "count": 1, "width": 0, "utf": False, "stat": True, "buf": buf(), "extra": 0,
+                          "enc": ["fixed_enc", k, [v]], "trail": False, "stream": "main",
+                          "meta": {"k": k, "vals": [str(v)], "pattern": "stat"}})
+    # BOOLEAN through the dispatch
+    for n in ((0, 1, 7, 8, 9, 40) if quick else tuple(range(0, 20)) + (63, 64, 65)):
+        vs = [rng.randrange(2) for _ in range(n)]
+        cases.append({"fn": "read_plain_t", "type": "BOOLEAN", "count": n, "width": 0, "utf": False, "stat": False, "buf": buf(), "extra": 0,
+                      "enc": ["bool_enc", vs], "trail": False, "stream": "main", "meta": {"k": 0, "vals": vs, "pattern": "random"}})
+    # BYTE_ARRAY
+    for utf, sets in ((False, ba_item_sets(rng, quick)), (True, utf_item_sets(rng, quick))):
+        for name, items in sets:
+            hexs = [x.hex() for x in items]
+            cases.append({"fn": "read_plain_t", "type": "BYTE_ARRAY", "count": len(items), "width": 0, "utf": utf, "stat": False,
+                          "buf": buf(), "extra": 0, "enc": ["ba_enc", items], "trail": False, "stream": "main",
+                          "meta": {"k": 0, "items": hexs, "pattern": name}})
+            if items and not name.startswith("uniform") or name.endswith("/trail-nul"):
+                # fewer values asked for than the page holds (the rest is ignored)
+                cases.append({"fn": "read_plain_t", "type": "BYTE_ARRAY", "count": max(len(items) - 1, 0), "width": 0, "utf": utf,
+                              "stat": False, "buf": buf(), "extra": 0, "enc": ["ba_enc", items], "trail": False, "stream": "main",
+                              "meta": {"k": 0, "items": hexs[:max(len(items) - 1, 0)], "pattern": name + "/fewer"}})
+            # the encoder side on the same lattice: pack_byte_array, and pack -> unpack / read_plain round trips
+            cases.append({"fn": "pack_byte_array", "items": hexs, "stream": "main", "meta": {"k": len(items)}})
+            cases.append({"fn": "ba_roundtrip", "items": hexs, "utf": utf, "stream": "main", "meta": {"pattern": name}})
+            if items and len(items) <= 2:
+                # a statistics value: the raw bytes ARE the value (no length prefix)
+                cases.append({"fn": "read_plain_t", "type": "BYTE_ARRAY", "count": 1, "width": 0, "utf": utf, "stat": True,
+                              "buf": buf(), "extra": 0, "inp": hexs[0], "enc_len": len(items[0]), "stream": "main",
+                              "meta": {"k": 0, "items": [hexs[0]], "pattern": name + "/stat"}})
+    return cases
+
+
+def _rp_spec(c):
+    t = c["type"]
+    b = _inp(c)
+    if t == "BOOLEAN":
+        return ("bool_dec", c["count"], b)
+    if t == "BYTE_ARRAY":
+        if c["stat"]:
+            return ("uleb_enc", 0)
+        return ("ba_dec", c["count"], b)
+    return ("fixed_dec", c["meta"]["k"], c["count"], b)
+
+
+def _rp_oracle(c, r, so, guard):
+    if r[0] != "ok":
+        return [(r[0], "encoding.read_plain: %r" % (r[:3],))]
+    t = c["type"]
+    if t == "BOOLEAN":
+        want = [int(x) for x in so]
+    elif t == "BYTE_ARRAY":
+        if c["stat"]:
+            want = [c["inp"]]
+        else:
+            if not so:
+                return [("spec", "harness: the spec decoder rejects the page")]
+            want = [bytes(x).hex() for x in so[0][0]]
+    else:
+        if not so:
+            return [("spec", "harness: the spec decoder rejects the page")]
+        k = c["meta"]["k"]
+        want = [int(v).to_bytes(k, "little").hex() for v in so[0][0]]
+    if r[1] != want:
+        bad = [(i, a, b) for i, (a, b) in enumerate(zip(r[1], want)) if a != b][:3]
+        return [("values", "encoding.read_plain(%s, count=%d%s%s) returned %d values, the PLAIN bytes hold %d; first differences "
+                 "(position, got, spec) %r" % (t, c["count"], ", utf" if c["utf"] else "", ", stat" if c["stat"] else "",
+                                                len(r[1]), len(want), bad))]
+    return []
+
+
+def _rt_oracle(c, r, so, guard):
+    if r[0] != "ok":
+        return [(r[0], "pack_byte_array / unpack_byte_array: %r" % (r[:3],))]
+    probs = []
+    for name, got in (("unpack_byte_array(pack_byte_array(x))", r[1]), ("read_plain(pack_byte_array(x), BYTE_ARRAY)", r[2])):
+        if got != c["items"]:
+            bad = [(i, a, b) for i, (a, b) in enumerate(zip(got, c["items"])) if a != b][:3]
+            probs.append(("values", "%s does not give the input back: %d values for %d; (position, got, input) %r"
+                          % (name, len(got), len(c["items"]), bad)))
+    return probs
+
+
+FNS["read_plain_t"] = dict(model=lambda c: ("uleb_enc", 0), tagged=False, views=_info_views("none"), spec=_rp_spec,
+                           oracle=_rp_oracle, safe=lambda c: True,
+                           cls=lambda c: {"type": c["type"], "utf": c["utf"], "stat": c["stat"]},
+                           trivial=lambda c: c["count"] == 0)
+FNS["ba_roundtrip"] = dict(model=lambda c: ("uleb_enc", 0), tagged=False, views=_info_views("none"), spec=lambda c: ("uleb_enc", 0),
+                           oracle=_rt_oracle, safe=lambda c: True, cls=lambda c: {"utf": c["utf"]},
+                           trivial=lambda c: not c["items"])
+EXTRA_GENERATORS.append(gen_read_plain)
+
+
+# =============================================================================================
+# the Python callers of delta_binary_unpack (allocation by physical type, longval flag)
+# =============================================================================================
+
+def gen_page_delta(rng, quick):
+    cases = []
+    for longval in (0, 1):
+        bits = 64 if longval else 32
+        for version in (1, 2):
+            for n in ((5, 33, 40, 131) if quick else (2, 5, 31, 33, 34, 40, 130, 131, 300)):
+                if (n - 1) % 128 == 0:
+                    continue
+                wsel = [rng.choice([0, 1, 3, 8, 13, 24, 28]) for _ in range(40)]
+                vals, widths = _delta_values(rng, bits, n, 32, lambda m: wsel[m % 40], "random", 4)
+                adts = ["int64" if longval else "int32"] + (["int64"] if (version == 2 and not longval) else [])
+                for adt in adts:
+                    cases.append({"fn": "page_delta", "longval": longval, "version": version, "n": n, "adt": adt, "vals": [str(v) for v in vals],
+                                  "enc": ["delta_enc", bits, 128, 4, vals], "trail": False, "stream": "main",
+                                  "meta": {"max_width": max(widths) if widths else 0}})
+    return cases
+
+
+def _pd_oracle(c, r, so, guard):
+    if r[0] != "ok":
+        return [(r[0], "core.read_data_page%s on a DELTA_BINARY_PACKED page: %r" % ("_v2" if c["version"] == 2 else "", r[:3]))]
+    if not so:
+        return [("spec", "harness: the spec decoder rejects the page")]
+    want = [int(v) for v in so[0][0]]
+    if r[1] != want:
+        bad = [(i, a, b) for i, (a, b) in enumerate(zip(r[1], want)) if a != b][:4]
+        return [("values", "core.read_data_page%s (output dtype %s) differs from the spec decoding of the DELTA_BINARY_PACKED page: %d values for %d; "
+                 "(position, got, want) %r" % ("_v2" if c["version"] == 2 else "", r[2], len(r[1]), len(want), bad))]
+    return []
+
+
+FNS["page_delta"] = dict(model=lambda c: ("uleb_enc", 0), tagged=False, views=_info_views("none"),
+                         spec=lambda c: ("delta_dec", 64 if c["longval"] else 32, _inp(c)), oracle=_pd_oracle, safe=lambda c: True,
+                         cls=lambda c: {"longval": c["longval"], "version": c["version"], "adt": c["adt"]}, trivial=lambda c: False)
+EXTRA_GENERATORS.append(gen_page_delta)
